@@ -7,6 +7,7 @@ next to the crate as model.json).
 """
 import json
 import os
+import re
 import hashlib
 
 ROOT = os.path.dirname(os.path.dirname(os.path.abspath(__file__)))
@@ -293,7 +294,7 @@ def attr_options(opts):
 
 def add_bench(m, path, indent, raw_name, form="plain", args=None, types=None, consts=None, consts_expr=None,
               type_first=True, options=None, ignore_attr=False, name=None, extern=None, display_module=None,
-              body="hit", bencher_style=None, cost=1000, pre=None):
+              body="hit", bencher_style=None, cost=1000, pre=None, expect_options=None):
     """Emits one #[divan::bench] function into module `path` (list of module names below the crate root).
     Returns the bench dict."""
     pad = " " * indent
@@ -372,8 +373,9 @@ def add_bench(m, path, indent, raw_name, form="plain", args=None, types=None, co
         "id": bid, "module": list(path), "raw_name": raw_name, "display_name": name if name is not None else disp(raw_name),
         "line": loc_line, "col": indent + 1, "fn_line": fn_line, "form": form, "args": labels, "args_kind": args,
         "types": list(types) if types is not None else None, "consts": const_labels, "type_first": type_first,
-        "options": dict((k, v) for k, v in (options or [])), "ignore": (True if ignore_attr or any(k == "ignore" and v in (None, "true") for k, v in (options or [])) else (False if any(k == "ignore" and v == "false" for k, v in (options or [])) else None)),
+        "options": dict((disp(k), v) for k, v in (options or [])), "ignore": (True if ignore_attr or any(disp(k) == "ignore" and v in (None, "true") for k, v in (options or [])) else (False if any(disp(k) == "ignore" and v == "false" for k, v in (options or [])) else None)),
         "style": bencher_style if form == "bencher" else None, "body": body, "cost": cost,
+        "expect_options": expect_options,
     }
     m.benches.append(bench)
     return bench
@@ -436,6 +438,14 @@ def family_forms(m, tier):
         dict(raw_name="named", name="custom name"),
         dict(raw_name="r#type"),
         dict(raw_name="ext_c", extern="C"),
+        dict(raw_name="raw_option_idents", options=[("r#ignore", None), ("r#sample_count", "3")], expect_options={"sample_count": 3, "ignore": True}),
+        dict(raw_name="crate_option", options=[("crate", "::divan"), ("sample_size", "4")], expect_options={"sample_size": 4}),
+        dict(raw_name="counters_list", options=[("counters", "[divan::counter::BytesCount::new(3u32), divan::counter::ItemsCount::new(4u32)]")], expect_options={"counters": [3, None, None, 4]}),
+        dict(raw_name="counter_single", options=[("counter", "divan::counter::CharsCount::new(2u32)")], expect_options={"counters": [None, 2, None, None]}),
+        dict(raw_name="count_options", options=[("items_count", "5u8"), ("cycles_count", "6u16"), ("bytes_count", "7u32"), ("chars_count", "8u64")], expect_options={"counters": [7, 8, 6, 5]}),
+        dict(raw_name="time_options", options=[("min_time", "0.001"), ("max_time", "std::time::Duration::from_secs(2)"), ("skip_ext_time", None), ("threads", "false")],
+             expect_options={"min_time_ns": 1000000, "max_time_ns": 2000000000, "skip_ext_time": True, "threads": [1]}),
+        dict(raw_name="threads_forms", options=[("threads", "[3, 0, 3]"), ("sample_count", "1"), ("sample_size", "1"), ("ignore", None)], expect_options={"threads": [3, 0, 3], "sample_count": 1, "sample_size": 1, "ignore": True}),
     ]
     if tier == "thorough":
         forms += [
@@ -603,6 +613,7 @@ def parse_threads_option(v):
 
 
 def effective_options(m, b):
+    b["options"].pop("crate", None)
     """Benchmark's own attribute, else the nearest enclosing bench_group that sets the field."""
     eff = {}
     levels = [b["options"]]
@@ -620,7 +631,7 @@ def effective_options(m, b):
         "sample_size": int(eff["sample_size"]) if "sample_size" in eff else None,
         "threads": parse_threads_option(eff["threads"]) if "threads" in eff else None,
         "max_time_zero": eff.get("max_time") == "0",
-        "counters": {k: int(eff[k].rstrip("u32").rstrip("u64")) for k in ("bytes_count", "chars_count", "cycles_count", "items_count") if k in eff},
+        "counters": {k: int(re.match(r"\d+", eff[k]).group(0)) for k in ("bytes_count", "chars_count", "cycles_count", "items_count") if k in eff},
     }
     return out
 
